@@ -52,6 +52,9 @@ from .answers import (
     construct_outgoing_unicast_answers,
 )
 
+# One quarter of a TTL given in seconds, in milliseconds
+_ONE_QUARTER_TTL_MILLIS = 250
+
 _RESPOND_IMMEDIATE_TYPES = {_TYPE_NSEC, _TYPE_SRV, *_ADDRESS_RECORD_TYPES}
 
 _EMPTY_SERVICES_LIST: List[ServiceInfo] = []
@@ -177,7 +180,12 @@ class _QueryResponse:
         if TYPE_CHECKING:
             record = cast(_UniqueRecordsType, record)
         maybe_entry = self._cache.async_get_unique(record)
-        return bool(maybe_entry is not None and maybe_entry.is_recent(self._now))
+        # The quarter is taken from the TTL the record is sent with. The copy in
+        # the cache (our own multicast looped back) can carry a different TTL:
+        # pointer records are raised to a minimum TTL when they are cached.
+        return bool(
+            maybe_entry is not None and maybe_entry.created + (_ONE_QUARTER_TTL_MILLIS * record.ttl) > self._now
+        )
 
     def _has_mcast_record_in_last_second(self, record: DNSRecord) -> bool:
         """Check if an answer was seen in the last second.
